@@ -10,3 +10,8 @@ func VerifNewHandler(ipt utiliptables.Interface) *PortMappingHandler {
 
 // VerifPortHeld reports whether somebody holds proto:port (engine: the bind() model; natively: a bind attempt).
 func VerifPortHeld(proto string, port int32) bool { return vHeld(proto, port) }
+
+// VerifNewHandlerKeepPorts: a second handler (for a reference table) that does not reset the host-port bookkeeping.
+func VerifNewHandlerKeepPorts(ipt utiliptables.Interface) *PortMappingHandler {
+	return &PortMappingHandler{Interface: ipt, podPortMap: make(map[string]map[hostport]closeable)}
+}
